@@ -41,7 +41,7 @@ func (x *Exec) EnableMonitor(c10 bool) *Monitor {
 
 // snapshot decodes the file and records the page set of the committed version.
 func (m *Monitor) snapshot(what string) *Fail {
-	_, st, err := DecodeFile(m.x.Path, m.x.Cfg.PageSize)
+	_, st, err := DecodeBytes(m.x.FileBytes(), m.x.Cfg.PageSize)
 	if err != nil {
 		return &Fail{Kind: "mismatch", At: -1, Msg: what + ": " + err.Error()}
 	}
